@@ -255,8 +255,15 @@ func (c *ctx) skeletons() {
 			sites[fmt.Sprint(s.ID)] = s.String()
 		}
 	}
-	var trusted []string
+	var trusted, derivedSites []string
+	for _, d := range c.an.Derived {
+		derivedSites = append(derivedSites, d.Fn+" "+d.Kind+" "+d.Expr)
+	}
+	r.Extra["derived_sites"] = derivedSites
 	for _, e := range c.an.Allow.entries {
+		if e.derived {
+			continue // re-derived on every run; the sites it covered are listed in derived_sites
+		}
 		trusted = append(trusted, fmt.Sprintf("%s %s %s (used %d) | %s", e.fn, e.kind, e.desc, e.used, e.why))
 		if e.used == 0 {
 			r.Notes = append(r.Notes, "allow.txt entry matches nothing any more: "+e.fn+" "+e.kind+" "+e.desc)
